@@ -34,7 +34,7 @@ TOPOLOGIES = {
 
 PROBES = ["game_started", "drain", "drain_during_eject", "multiball_add", "eject_failed_physically", "eject_retry_seen",
           "two_balls_loose", "lock_shot", "lock_release", "manual_plunge", "late_arrival", "fallback", "stuck",
-          "rest_reached", "bounce_off_full", "request_while_busy", "game_ended", "second_game", "ambiguous_reentry", "entrance_reentry_at_eject_timeout", "second_feed_request", "ball_saved", "double_drain", "late_arrival_at_missing_deadline", "add_ball_while_first_in_transit"]
+          "rest_reached", "bounce_off_full", "request_while_busy", "game_ended", "second_game", "ambiguous_reentry", "entrance_reentry_at_eject_timeout", "second_feed_request", "ball_saved", "double_drain", "late_arrival_at_missing_deadline", "add_ball_while_first_in_transit", "request_after_kick"]
 
 
 def warm():
@@ -73,7 +73,10 @@ def plan(ch, tier):
         k = "start" if i == 0 else ch.weighted("op", kinds)
         ops.append({"op": k, "dt": ch.pick("dt", [0.5, 0.0, 0.05, 0.3, 1.0, 2.0, 2.1, 3.1, 5.0, 12.0]), "pick": ch.choice("pick", 3)})
     patches = {"game": {"balls_per_game": ch.pick("bpg", [1, 2, 3])}}
-    return {"knobs": knobs, "world": wk, "topo": topo, "nballs": nb, "ops": ops, "patches": patches}
+    # reactive requests: another ball is requested a moment after some device kicked (while its ball is under way)
+    react = {"on": ch.flag("react_add", 0.35), "delay": ch.pick("react_delay", [0.2, 0.1, 0.5, 1.0]),
+             "max": 1 + ch.choice("react_max", 3)}
+    return {"knobs": knobs, "world": wk, "topo": topo, "nballs": nb, "ops": ops, "patches": patches, "react": react}
 
 
 def execute(ctx, plan, prop):
@@ -142,13 +145,37 @@ def execute(ctx, plan, prop):
         # source's switches, exactly like an eject whose ball came back; MPF cannot know it is still on its way
         known_transit = [b for b in world.balls if b.kind == "transit" and b.dst == tgt.name and b.src in world.devs
                          and not b.ambiguous]
+        if tgt.config["eject_targets"][0].is_playfield():
+            # relaxation "playfield confirmation": an eject to the playfield is confirmed by ANY playfield activity
+            # (documented confirm_eject_type: target). When another ball made such activity after the target's own
+            # ball left, MPF rightly believes that eject succeeded; if that ball later falls back, MPF could not know
+            known_transit = [b for b in known_transit
+                             if not (b.src == tgt.name and world.last_pf_activity >= b.since)]
+        if ti.mechanical:
+            # relaxation "skip assumption": a mechanical plunger lane may let a ball through unseen, so once the source's
+            # eject timeout has passed MPF documents that it treats the ball as possibly gone past the lane; a ball that
+            # is physically still on its way (late arrival) is then no longer held against the no-room rule
+            known_transit = [b for b in known_transit
+                             if sim.now - b.since <= world.devs[b.src].eject_timeout + 0.05 or b.src == tgt.name]
         if len(settled) + len(known_transit) >= ti.capacity:
             viol("fired_at_full_target", "%s>%s" % (info.name, tgt.name),
                  "%s fired towards %s which physically holds %d settled ball(s) + %d on the way (capacity %d) at %.3f; world=%r"
                  % (info.name, tgt.name, len(settled), len(known_transit), ti.capacity, sim.now, world.summary()))
         if sim.now - world.last_drain_t < 1.0:
             ctx.probe("drain_during_eject")
+        rc = plan.get("react") or {}
+        if rc.get("on") and react_left[0] > 0 and m.game is not None and in_workload[0]:
+            react_left[0] -= 1
+
+            def late_request():
+                if m.game is not None and in_workload[0]:
+                    ctx.probe("request_after_kick")
+                    pf.add_ball()
+                    m.game.balls_in_play += 1
+            sim.after(rc["delay"], late_request)
     world.last_drain_t = -100.0
+    react_left = [(plan.get("react") or {}).get("max", 0)]
+    in_workload = [True]
     world.on_coil.append(on_coil)
 
     failed_events = []
@@ -248,6 +275,7 @@ def execute(ctx, plan, prop):
             ctx.probe({"fallback": "fallback", "stuck": "stuck", "late": "late_arrival"}[e["outcome"]])
 
     # ---- faults stop; the physical world comes to rest ------------------------------------------------------
+    in_workload[0] = False
     world.faults_enabled = False
     sim.loop.stall_enabled = False
     # the player plays on a little: manual plungers get pulled, so nothing waits on a human for ever
@@ -295,7 +323,7 @@ def execute(ctx, plan, prop):
         if d.name in broken:
             continue
         if d.available_balls != d.balls or not d.outgoing_balls_handler.is_idle:
-            viol("device_not_idle", d.name, "at rest %s: balls=%d available_balls=%d outgoing idle=%r"
+            viol("device_not_idle", d.name + (" after_late_arrival" if d.name in world.late_targets else ""), "at rest %s: balls=%d available_balls=%d outgoing idle=%r"
                  % (d.name, d.balls, d.available_balls, d.outgoing_balls_handler.is_idle))
     if not broken and pf.available_balls != pf.balls:
         src_has = sum(world.count(d.name) for d in devices)
